@@ -30,6 +30,7 @@ RULE = (
 RULE += '; a third of the cases run a garbage collection between any two steps (fenced heap)'
 RULE += '; a collection right after every block in gc mode; same-instant histories (zero measured times)'
 RULE += '; a long-running task opening several scopes one after another while an inherited chain is being left (all linearisations)'
+RULE += '; scopes opened while a cancellation request is pending (all linearisations)'
 LEVEL_TEXT = (
     "History invariant over the harness's own event log: every entered-and-left scope fires its completion exactly "
     "once, after its own exit and after the exit of every descendant created before it completed; from then on "
@@ -104,6 +105,33 @@ def execute(case, sched: Sched):
                     log("entered", node)
                     cms.append((step["mode"], cm, node))
                     me["ref"].append(node)
+                elif s == "enter_cancelled":
+                    # the task has a cancellation request PENDING when it opens a scope (requested by itself a moment ago, by
+                    # a failing sibling's task group ...): the request is delivered at the entrance or at the body's first
+                    # suspension; either way the block is over then - and it still counts as left for its ancestors
+                    node = (tid, me["pos"])
+                    parent = me["ref"][-1] if me["ref"] else None
+                    nodes[node] = {"parent": parent, "mode": "async", "metrics": None}
+
+                    def cb(m, node=node):
+                        fired(node, m)
+
+                    log("create", node, parent=parent)
+                    cm = ctx.scope(f"n{tid}_{me['pos']}", completion=cb)
+                    asyncio.current_task().cancel()
+                    was_entered = False
+                    try:
+                        async with cm:
+                            was_entered = True
+                            log("entered", node)
+                            await asyncio.sleep(0)
+                            log("exit_start", node)
+                    except asyncio.CancelledError:
+                        asyncio.current_task().uncancel()
+                        if was_entered and not any(e["k"] == "exit_start" and e["n"] == node for e in ev):
+                            log("exit_start", node)
+                    del cm
+                    log("exit_done", node)
                 elif s == "exit":
                     if cms:
                         await leave(cms, me)
@@ -395,7 +423,24 @@ def strategy(tier):
             child += [enter(), {"s": "exit"}]
         return {"tasks": [root, child], "choices": None, "exhaustive": True, "gc": False, "same_instant": draw(st.integers(0, 3)) == 0}
 
-    return st.one_of(cases(), cases(), cases(), chain(), chain(), chain(), late_sequence())
+    @st.composite
+    def cancelled_entrance(draw):
+        """a scope opened by a task that has a cancellation request pending, somewhere inside a chain of open scopes (own task or
+        a spawned / plain task): it is over at once, and the chain completes when it has been left"""
+        def enter():
+            return {"s": "enter", "mode": draw(mode), "completion": draw(comp), "trace": None}
+
+        depth = draw(st.integers(1, 3))
+        where = draw(st.sampled_from(["own", "asyncio", "ctx"]))
+        if where == "own":
+            root = [enter() for _ in range(depth)] + [{"s": "enter_cancelled"}] + [{"s": "exit"} for _ in range(depth)]
+            scripts = [root]
+        else:
+            root = [{**enter(), "mode": "async"} for _ in range(depth)] + [{"s": "spawn", "via": where, "task": 1}] + [{"s": "exit"} for _ in range(depth)]
+            scripts = [root, [{"s": "enter_cancelled"}, *([enter(), {"s": "exit"}] if draw(st.booleans()) else [])]]
+        return {"tasks": scripts, "choices": None, "exhaustive": True, "gc": False, "same_instant": draw(st.integers(0, 3)) == 0}
+
+    return st.one_of(cases(), cases(), cases(), chain(), chain(), chain(), late_sequence(), cancelled_entrance())
 
 
 def budget(tier):
